@@ -470,6 +470,10 @@ class _Gen:
     def scalar(self):
         return self.pick(SCALARS)
 
+    def target(self):
+        """Assignment / loop targets: mostly the scalar names, so that ``s`` and ``t`` usually stay sequences."""
+        return self.pick(SCALARS) if self.chance(5, 6) else self.pick(VARS)
+
     # -- expressions
     def atom(self, lex):
         k = self.weighted([("name", 6), ("int", 2), ("str", 1)])
@@ -618,8 +622,12 @@ class _Gen:
                 use = ["out", call]
             pos = self.i(idx + 1, len(out))
             out.insert(pos, use)
-            if self.chance(1, 2):
-                out.insert(self.i(idx + 1, pos), ["set", [self.var()], [self.expr(lex, 1)]])
+            if self.chance(2, 3):
+                # prefer a name the macro body reads but does not bind itself
+                mac = out[idx]
+                free = sorted({n for st_ in walk(mac[4]) for e in stmt_exprs(st_) for n in expr_names(e) if n in VARS} - set(mac[2]))
+                target = self.pick(free) if free and self.chance(4, 5) else self.var()
+                out.insert(self.i(idx + 1, pos), ["set", [target], [self.expr(lex, 1)]])
         return out
 
     def stmt(self, lex):
@@ -637,11 +645,11 @@ class _Gen:
             return ["out", self.expr(lex)]
         if k == "set":
             if self.chance(1, 6):
-                t1, t2 = self.var(), self.var()
+                t1, t2 = self.target(), self.target()
                 if t1 != t2:
                     return ["set", [t1, t2], [self.expr(lex, 1), self.expr(lex, 1)]]
                 return ["set", [t1], [self.expr(lex)]]
-            return ["set", [self.var()], [self.expr(lex)]]
+            return ["set", [self.target()], [self.expr(lex)]]
         if k == "nsset":
             return ["nsset", self.ns_name(lex), self.pick(ATTRS), self.expr(lex)]
         if k == "nsnew":
@@ -662,7 +670,7 @@ class _Gen:
         if k == "with":
             binds = []
             for _ in range(self.i(0, 2)):
-                n = self.var()
+                n = self.target()
                 if n not in [b[0] for b in binds]:
                     binds.append([n, self.expr(lex)])
             return ["with", binds, self.block(lex.child(), 1, 4)]
@@ -685,7 +693,7 @@ class _Gen:
         if k == "setblock":
             f = self.pick(BLOCK_FILTERS) if self.chance(1, 4) else None
             # break/continue inside a buffering block would drop the buffered output (undocumented): excluded
-            return ["setblock", self.var(), f, self.block(lex.child(loopctl=False), 1, 3)]
+            return ["setblock", self.target(), f, self.block(lex.child(loopctl=False), 1, 3)]
         if k == "filter":
             return ["filter", self.pick(SECTION_FILTERS), self.block(lex.child(loopctl=False), 1, 3)]
         if k == "autoescape":
@@ -695,10 +703,10 @@ class _Gen:
     def for_(self, lex):
         recursive = self.chance(1, 5)
         two = self.chance(1, 6) and not recursive
-        t1 = self.var()
+        t1 = self.target()
         targets = [t1]
         if two:
-            t2 = self.var()
+            t2 = self.target()
             if t2 != t1:
                 targets.append(t2)
         ik = self.weighted([("s", 6), ("t", 4), ("var", 1 if self.errors else 0), ("list", 4), ("expr", 1 if self.errors else 0)])
